@@ -283,9 +283,54 @@ def dist_shard(asm, acc, sh, deadline):
             break
 
 
+CT_M = [('beq', 'x5, x6, ', -4096, 4094), ('bgeu', 'x0, x0, ', -4096, 4094), ('jal', 'x1, ', -(1 << 20), (1 << 20) - 2), ('j', '', -(1 << 20), (1 << 20) - 2),
+        ('beqz', 'x9, ', -4096, 4094), ('c.j', '', -2048, 2046), ('c.jal', '', -2048, 2046), ('c.beqz', 'x9, ', -256, 254), ('c.bnez', 'x8, ', -256, 254)]
+
+
+def const_target_shard(asm, acc, sh, deadline):
+    """a *name* in a branch / jump target position means a location: with a named constant the encoded offset is constant - pc.
+    A location whose distance is not representable must be refused (never wrapped modulo 2^32), a representable one accepted."""
+    rng = random.Random('c06-ct-%d' % sh['seed'])
+    for m, regs, lo, hi in CT_M:
+        probes = set()
+        for base in (0, lo, hi, 1 << 31, -(1 << 31), 1 << 32, -(1 << 32), (1 << 32) + hi, (1 << 32) + lo, 0xfffffff8, 0x100000010, (1 << 33)):
+            for d in (-4, -2, 0, 2, 4, 6, 16):
+                probes.add(base + d)
+        probes |= {rng.randrange(lo - 64, hi + 64) for _ in range(40)}
+        for T in sorted(probes):
+            npre = rng.randrange(0, 4)
+            lines = ['TARGET_LOC = %d' % T] + ['addi x0, x0, 0'] * npre + ['%s %sTARGET_LOC' % (m, regs)]
+            pos = 4 * npre
+            off = T - pos
+            legal = lo <= off <= hi and off % 2 == 0
+            acc['n'] += 1
+            o = monitors.observe(asm, '\n'.join(lines) + '\n', tap=False)
+            acc['ntkeys'].add(core.ckey('ct', m, T, npre))
+            acc['ctr']['const_target_cases'] += 1
+            case = {'kind': 'ctarget', 'lines': lines, 'off': off, 'legal': legal, 'm': m}
+            if o.ok and not legal:
+                core.add_viol(acc, 'unrepresentable pc-relative distance accepted: `%s` at offset %d with TARGET_LOC = %d (distance %d) emitted %s' % (
+                    lines[-1], pos, T, off, o.out[pos:].hex()), case, {})
+            elif not o.ok and legal:
+                core.add_viol(acc, 'representable pc-relative distance refused: `%s` at offset %d with TARGET_LOC = %d (distance %d): %s' % (
+                    lines[-1], pos, T, off, o.exc['msg']), case, {})
+            elif o.ok:
+                parts = monitors.split_insns(o.out[pos:])
+                size, enc = parts[0][1], parts[0][2]
+                d = rv.decode32(enc) if size == 4 else rv.expand16(rv.decode16(enc)[1]) if rv.decode16(enc)[0] == 'legal' else None
+                if not d or d.get('imm') != off:
+                    core.add_viol(acc, '`%s` at offset %d with TARGET_LOC = %d emitted %s whose offset is %r, not %d' % (lines[-1], pos, T, o.out[pos:].hex(), d and d.get('imm'), off), case, {})
+        if time.time() > deadline:
+            acc['truncated'] += 1
+            break
+
+
 def run_shard(sh, deadline):
     asm = core.load_asm()
     acc = core.new_acc()
+    if sh['kind'] == 'ctarget':
+        const_target_shard(asm, acc, sh, deadline)
+        return acc
     if sh['kind'] == 'dist':
         dist_shard(asm, acc, sh, deadline)
         return acc
@@ -316,6 +361,7 @@ def plan(tier, seed):
     dcases.sort(key=lambda c: c['D'])
     nd = 32
     shards += [{'kind': 'dist', 'cases': dcases[i::nd]} for i in range(nd)]
+    shards += [{'kind': 'ctarget', 'seed': seed + i} for i in range(2 if tier == 'quick' else 16)]
     return {'shards': shards, 'budget_s': 240 if tier == 'quick' else 1500, 'exhaustive': False}
 
 
@@ -337,7 +383,12 @@ def classify(v):
 def replay(case):
     asm = core.load_asm()
     acc = core.new_acc()
-    if case['kind'] == 'dist':
+    if case['kind'] == 'ctarget':
+        o = monitors.observe(asm, '\n'.join(case['lines']) + '\n', tap=False)
+        acc['n'] += 1
+        if o.ok != case['legal']:
+            core.add_viol(acc, 'pc-relative distance %d to a named location: accepted=%s, representable=%s (%s)' % (case['off'], o.ok, case['legal'], case['lines'][-1]), case, {})
+    elif case['kind'] == 'dist':
         dist_shard(asm, acc, {'cases': [{k: v for k, v in case.items() if k != 'kind'}]}, time.time() + 600)
     elif case['kind'] == 'enc':
         judge(asm, acc, case['m'], case['args'], case.get('kw') or None, set())
